@@ -283,6 +283,7 @@ func c20CwRunCase(c *lib.Ctx, base string, cs c20CwCase, reply string) *c20Probl
 	}
 	// what the user saved in each directory: the setqs of the sessions on it and what somebody put there
 	want := make([]map[string]string, cs.NDirs)
+	put := make([]map[string]string, cs.NDirs) // put into the directory of the running session, not yet loaded or overwritten
 	for i := range want {
 		want[i] = map[string]string{}
 	}
@@ -343,17 +344,30 @@ func c20CwRunCase(c *lib.Ctx, base string, cs c20CwCase, reply string) *c20Probl
 				switch e.Kind {
 				case "B":
 					cur = e.D
+					// what somebody put there while an earlier session on d was still running is loaded now
+					for k, v := range put[cur] {
+						want[cur][k] = v
+					}
+					put[cur] = nil
 				case "S":
 					if cur >= 0 {
 						want[cur][e.K] = e.V
+						put[cur] = nil // overwritten by the session
 					}
 				case "E":
 					// a file put there while a session on that directory is running is overwritten by the
-					// session's next setq (one writer at a time is an assumption of the property)
+					// session's next setq (one writer at a time is an assumption of the property); a session
+					// that starts on it before that loads it
 					want[e.D] = map[string]string{}
-					if e.D != cur {
-						for _, kv := range e.File {
+					put[e.D] = nil
+					for _, kv := range e.File {
+						if e.D != cur {
 							want[e.D][kv.Var] = kv.Lit
+						} else {
+							if put[e.D] == nil {
+								put[e.D] = map[string]string{}
+							}
+							put[e.D][kv.Var] = kv.Lit
 						}
 					}
 				}
@@ -427,6 +441,8 @@ func c20CwCases(c *lib.Ctx, r *lib.Rng) []c20CwCase {
 		{Cell: "cfgdirs/back-and-forth", NDirs: 2, Events: []c20CwEvent{B(0, true), S(a), B(1, true), S(b), B(0, true), S(a2), B(1, true), S(b), B(0, true), S(a2)}},
 		{Cell: "cfgdirs/copied-directory", NDirs: 2, Events: []c20CwEvent{B(0, true), S(a), S(d), X, put(1, d, a), B(1, true), S(a), B(0, true), S(a)}},
 		{Cell: "cfgdirs/loaded-then-same-setq", NDirs: 2, Events: []c20CwEvent{put(0, a), put(1, b), B(0, true), S(b), B(1, true), S(a)}},
+		{Cell: "cfgdirs/replaced-after-loaded-session", NDirs: 1, Events: []c20CwEvent{put(0, a), B(0, true), S(b), put(0, d), B(0, true), S(b)}},
+		{Cell: "cfgdirs/replaced-after-loaded-session-repl-call", NDirs: 2, Events: []c20CwEvent{put(0, a), B(0, true), S(b), B(1, false), put(0, d), B(0, false), S(b)}},
 		{Cell: "cfgdirs/new-process-same-setq", NDirs: 2, Events: []c20CwEvent{B(0, true), S(a), X, B(1, true), S(a), X, B(0, true), S(a)}},
 		{Cell: "cfgdirs/value-back-to-first", NDirs: 2, Events: []c20CwEvent{B(0, true), S(a), S(a2), B(1, true), S(a2), S(a), B(0, false), S(a)}},
 	}
